@@ -117,7 +117,7 @@ func init() {
 		}
 	}
 	c08 := []string{"srv-req-read-close", "srv-req-close", "srv-req-close-smallpipe", "srv-two-seq", "srv-pipelined", "srv-panics", "srv-half-then-close",
-		"srv-4bytes-then-close", "srv-garbage", "srv-undecodable", "srv-toobig", "srv-req-then-garbage", "srv-slow-close", "srv-halfclose", "srv-3pipelined-close"}
+		"srv-4bytes-then-close", "srv-stray-response", "srv-garbage", "srv-undecodable", "srv-toobig", "srv-req-then-garbage", "srv-slow-close", "srv-halfclose", "srv-3pipelined-close"}
 	c08multi := []string{"srv-2conn-good-bad", "srv-2conn-good-abrupt", "srv-3conn", "srv-4pipelined-read1-close"}
 	plans["C08"] = Plan{
 		Level: "model_checking",
@@ -127,7 +127,7 @@ func init() {
 		Quick:       cat(pb(100, B{{0, 0}, {1, 0}}, c08...), db(100, B{{2, 0}}, c08multi...), db(100, B{{0, 0}, {1, 0}}, "srv-size-history")),
 		Thorough:    cat(pb(1500, B{{1, 0}, {2, 0}}, c08...), db(1500, B{{3, 0}, {4, 0}}, c08...), db(1500, B{{2, 0}, {3, 0}}, c08multi...), pb(1500, B{{0, 0}}, c08multi...), db(1500, B{{2, 0}}, "srv-size-history"), pb(1500, B{{0, 0}}, "srv-size-history")),
 	}
-	c10 := []string{"cli-cancel-then-next", "cli-timeout-seq", "cli-par-2", "cli-par-cancel", "cli-par-3", "cli-negotiate-cancel"}
+	c10 := []string{"cli-stray-requests", "cli-cancel-then-next", "cli-timeout-seq", "cli-par-2", "cli-par-cancel", "cli-par-3", "cli-negotiate-cancel"}
 	plans["C10"] = Plan{
 		Level: "model_checking",
 		Rule: "all schedules of N callers sharing one real kmipclient.Client against scripted echo servers (response = request identifier), " +
